@@ -40,7 +40,7 @@ CORR = {"reserve_drop": corrupt_drop, "unbacked_mint": corrupt_mint}
 
 
 def run_shard(acc, prop, tier, seed, shard, nshards, **kw):
-    _w.shard(acc, PROP, tier, seed, shard, nshards, factory, WEIGHTS, (12, (120, 240)), (500, (120, 320)), CORR)
+    _w.shard(acc, PROP, tier, seed, shard, nshards, factory, WEIGHTS, (12, (120, 240)), (300, (120, 320)), CORR)
     if tier == "thorough":
         # long drift histories on dust pools, where rounding is proportionally largest
         _w.shard(acc, PROP + "drift", tier, seed, shard, nshards, factory,
